@@ -216,6 +216,18 @@ def main(tier, seed):
         self_hosting(run)
     except Exception as e:
         run.inconclusive['self-hosting harness error %s' % type(e).__name__] = 1
+    # stdlib unittest differential (frozen list of modules that agree on the unchanged tree; quick = the fastest few)
+    from vf.props import c01_stdlib
+    fl = c01_stdlib.frozen_list()
+    mods = list(fl.get('modules') or [])
+    if tier == 'quick':
+        secs = fl.get('seconds') or {}
+        mods = sorted([m for m in mods if (secs.get(m) or 99) < 4], key=lambda m: (secs.get(m) or 99, m))[:8]
+
+    def on_s(c, r):
+        run.add({'shape': 'stdlib-differential', 'module': c['module']}, r)
+    if mods:
+        pool.run_cases([{'module': m, 'timeout': 700} for m in mods], 'vf.props.c01_stdlib:run_case', timeout=800, batch=1, on_result=on_s, deadline=run.deadline + 300)
     return run.finish(
         rule='runnable, terminating, self-observing programs: seeds, every option trigger x context (printing a result list), guarded random modules, '
              'literal-rich programs, scope shapes (printing each reference), interface templates; each under the default options and a rotating selection '
@@ -225,12 +237,23 @@ def main(tier, seed):
         assumptions=['reprs of functions / classes / objects in stdout are normalised (names of locals, addresses: documented reflective views)',
                      'generators avoid keyword use of self / positional-only names, reflective access to local names and annotations with side effects',
                      'a program is used only if two runs of the original agree'],
-        min_nontrivial=200, required_counters=['programs_run', 'variants_run', 'history_events', 'self_hosting_tests_compared'])
+        min_nontrivial=200, required_counters=['programs_run', 'variants_run', 'history_events', 'self_hosting_tests_compared'] + (['stdlib_unit_tests_compared'] if mods else []))
 
 
 def replay(path):
     w = runner.load_replay(path)
     c = w['case']
+    if c.get('shape') == 'stdlib-differential':
+        from vf.props import c01_stdlib
+        r = c01_stdlib.run_case({'module': c['module']})
+        print(json.dumps(r, indent=1)[:3000])
+        if r.get('violations'):
+            print('VIOLATION property=%s replay=%s' % (PROP, path))
+            return 1
+        return 0
+    if c.get('shape') == 'self-hosting':
+        print('self-hosting is re-run by ./check C01')
+        return main('quick', w.get('seed', 0))
     wit = w['witness']
     r = run_case({'shape': c['shape'], 'src': c['src'], 'optsets': [(wit.get('optset', 'replay'), wit['opts'])]})
     print(json.dumps(r, indent=1)[:4000])
